@@ -13,6 +13,7 @@ import (
 
 	"pgregory.net/rapid"
 
+	"verif/internal/jgram"
 	"verif/internal/pbt"
 )
 
@@ -26,24 +27,15 @@ type UnitCase struct {
 	Cli   int    `json:"cli,omitempty"`   // sub-check cli: which spelling of the commands' options
 }
 
+// genUnit: the grammar-directed generator lives in internal/jgram (the anyjava sub-checks of C01, C02 and C06
+// draw from it as well). No construct is switched off by a known finding at present.
 func genUnit(t *rapid.T) UnitCase {
-	g := newGen(t)
-	g.fuel = rapid.IntRange(0, 500).Draw(t, "fuel")
-	g.spring = rapid.IntRange(0, 2).Draw(t, "framework") == 2
-	g.drawDepthLimit()
-	g.compilationUnit()
-	g.layoutAndTail()
-	g.applyExclusions()
-	c := UnitCase{Labels: g.labels}
-	c.Path, c.Twice = g.drawPlace()
+	u := jgram.Gen(t)
+	c := UnitCase{Labels: u.Labels, Path: u.Path, Twice: u.Twice}
 	c.Cli = rapid.IntRange(0, 3).Draw(t, "cli")
-	c.Text = g.render()
+	c.Text = u.Text
 	return c
 }
-
-// applyExclusions: generator feature switches of known findings (none at present; the
-// mechanism is kept so that a recorded finding can switch its construct off).
-func (g *gen) applyExclusions() {}
 
 // conventional: productions of the conventional subset of DESIGN.md 3.1 (what jgen of
 // C01/C02 produces). A unit is non-trivial when it uses at least one production outside.
@@ -289,7 +281,7 @@ var (
 )
 
 func init() {
-	for _, l := range allLabels {
+	for _, l := range jgram.AllLabels() {
 		labelKnown[l] = true
 		pbt.Count("prod:"+l, 0)
 	}
